@@ -1,8 +1,9 @@
 """C09 — every wire has exactly one driver, or the program is rejected."""
 from props.common_prog import judge_prog
 
-THEOREM_MODULES = ["Hcl.Theorems.C09", "Hcl.Tie.Fixed"]
-THEOREMS = {"Hcl.Theorems.C09": ["C09_accepted", "C09_stage1_rejects", "step1_errors_mono", "step1Name_double"], "Hcl.Tie.Fixed": ["Tie.Fixed.fixedFunctions"]}
+THEOREM_MODULES = ["Hcl.Theorems.C09", "Hcl.Tie.Fixed", "Hcl.Tie.PinsBuild"]
+THEOREMS = {"Hcl.Theorems.C09": ["C09_accepted", "C09_stage1_rejects", "step1_errors_mono", "step1Name_double"], "Hcl.Tie.Fixed": ["Tie.Fixed.fixedFunctions"],
+            "Hcl.Tie.PinsBuild": ["Tie.PinsBuild.pinProgramNew", "Tie.PinsBuild.pinResolveConstants", "Tie.PinsBuild.pinPreprocessFixed", "Tie.PinsBuild.pinAssignmentsToActions"]}
 
 RULE = ("S-PROG fault injection: an accepted random program (all profiles) gets one fault of each class - assignment "
         "dropped (plain wire, bank input, stall/bubble, each built-in input), assigned twice, wire/constant declared twice or "
